@@ -304,6 +304,12 @@ func (cd *codeStore) Last() uint32 {
 	if cd.pc == 0 {
 		return opInvalidInstruction
 	}
+	if cd.pc >= 2 {
+		// the word after a SETLIST with C == 0 is the operand of that instruction, not an instruction
+		if prev := cd.codes[cd.pc-2]; opGetOpCode(prev) == OP_SETLIST && opGetArgC(prev) == 0 {
+			return opInvalidInstruction
+		}
+	}
 	return cd.codes[cd.pc-1]
 }
 
